@@ -361,17 +361,40 @@ def expanded_atoms(cfg: CFG, test: ast.AST, truth: bool, depth: int = 0):
             yield from expanded_atoms(cfg, a.args[0], t, depth + 1)
 
 
+def disjuncts(test: ast.AST, truth: bool, depth: int = 0) -> list:
+    """what is known on the `truth` edge of `test`, as a disjunction of sub-tests each taken with a truth value:
+    the false edge of `a and b` knows `not a  or  not b`; the true edge of `a or b` knows `a or b`; otherwise one disjunct."""
+    e, neg = test, False
+    while isinstance(e, ast.UnaryOp) and isinstance(e.op, ast.Not):
+        e, neg = e.operand, not neg
+    if neg:
+        truth = not truth
+    if isinstance(e, ast.BoolOp) and depth < 4 and ((isinstance(e.op, ast.And) and not truth) or (isinstance(e.op, ast.Or) and truth)):
+        out = []
+        for v in e.values:
+            out.extend(disjuncts(v, truth, depth + 1))
+        return out
+    return [(e, truth)]
+
+
 def edges_establishing(cfg: CFG, pred) -> list:
     """(node, label) branch edges on which pred(atom, truth) holds for some atomic fact of that edge (boolean locals with a
-    single definition are looked through)."""
+    single definition are looked through).  When the edge only knows a disjunction (`if a and b: … else: <here>`), the fact
+    must follow from every disjunct."""
     out = []
     for n in cfg.nodes:
         if n.kind != "test" or isinstance(getattr(n, "stmt", None), ast.Match):
             continue
         for label in (True, False):
-            if any(pred(a, t) for a, t in expanded_atoms(cfg, n.ast, label)):
+            ds = disjuncts(n.ast, label)
+            if ds and all(any(pred(a, t) for a, t in expanded_atoms(cfg, d, tv)) for d, tv in ds):
                 out.append((n, label))
     return out
+
+
+def edges_establishing_any(cfg: CFG, preds) -> list:
+    """edges on which one of several facts holds, possibly a different one per disjunct (`Fail` only when error OR unequal)"""
+    return edges_establishing(cfg, lambda a, t: any(p(a, t) for p in preds))
 
 
 class ReachingDefs:
